@@ -1,103 +1,308 @@
 package main
 
-// C37 facts: bfe_http2/server.go
-//   const maxQueuedControlFrames = N
-//   func (s *Server) maxQueuedControlFrames() int { return maxQueuedControlFrames }
-//   serve(): for { select {...}; if sc.queuedControlFrames > sc.srv.maxQueuedControlFrames() { ...; return } }
-// The extractor fails if the constant or the accessor no longer has this shape; WHERE the check sits is
-// reported as the fact `checkAtLoopTail` (a theorem of Props requires it to be true), so that a moved
-// check still lets the correspondence run look for a failing input.
+// C37 facts from bfe_http2 (semantic, not shape-matching):
+//
+//   maxQueuedControlFrames : the value of the package constant `maxQueuedControlFrames`
+//       (integer constant expression; if the accessor `(*Server).maxQueuedControlFrames` exists it must
+//       return that constant or an equal literal).
+//   checkAtLoopTail : in serverConn.serve(), in the event loop (the top-level `for {}` that contains the
+//       `select`), the statements AFTER the select compare `<x>.queuedControlFrames` with the limit and can
+//       leave serve() (`return`).  The comparison is searched through same-package helper calls
+//       (transitively, depth <= 4, cycle-safe), in either direction (`>`, `<`, `>=`, `<=`, negated or not,
+//       `if over {return}` as well as `if !over {continue}; return`), and "the limit" is resolved through
+//       local variables assigned from it (in serve() or in the helper), the accessor call, or the constant.
+//       The fact is false when the limit check no longer sits after the select (e.g. when it is moved into
+//       the handling of one kind of event): then it does not run at the end of every iteration.
+//
+// Exact control flow (closing exactly when counter > limit at the end of each iteration) is carried by
+// the Lean model + the correspondence run; this fact only ties "the check is in the loop tail" to the source.
+// The emitted file contains nothing else, so behaviour-preserving rewrites give the identical file.
 
 import (
 	"fmt"
 	"go/ast"
+	"go/parser"
 	"go/token"
+	"os"
+	"path/filepath"
+	"strings"
 )
 
-func init() {
-	register("C37", func(repo string) (string, error) {
-		_, f, err := parseFile(repo, "bfe_http2/server.go")
+type c37pkg struct {
+	funcs map[string][]*ast.FuncDecl // by name (functions and methods)
+	files []*ast.File
+}
+
+func c37load(repo string) (*c37pkg, error) {
+	dir := filepath.Join(repo, "bfe_http2")
+	ents, err := os.ReadDir(dir)
+	if err != nil {
+		return nil, err
+	}
+	p := &c37pkg{funcs: map[string][]*ast.FuncDecl{}}
+	fset := token.NewFileSet()
+	for _, e := range ents {
+		n := e.Name()
+		if e.IsDir() || !strings.HasSuffix(n, ".go") || strings.HasSuffix(n, "_test.go") || strings.HasPrefix(n, "zz_verif_") {
+			continue
+		}
+		f, err := parser.ParseFile(fset, filepath.Join(dir, n), nil, 0)
 		if err != nil {
-			return "", err
+			return nil, err
 		}
-		v := findValue(f, "maxQueuedControlFrames")
-		n, ok := intLit(v)
-		if !ok || n <= 0 {
-			return "", fmt.Errorf("const maxQueuedControlFrames is not a positive integer literal")
+		p.files = append(p.files, f)
+		for _, d := range f.Decls {
+			if fd, ok := d.(*ast.FuncDecl); ok && fd.Body != nil {
+				p.funcs[fd.Name.Name] = append(p.funcs[fd.Name.Name], fd)
+			}
 		}
-		m := findFunc(f, "Server", "maxQueuedControlFrames")
-		if m == nil || m.Body == nil {
-			return "", fmt.Errorf("method (*Server).maxQueuedControlFrames not found")
+	}
+	return p, nil
+}
+
+const c37const = "maxQueuedControlFrames"
+const c37counter = "queuedControlFrames"
+
+func c37unparen(e ast.Expr) ast.Expr {
+	for {
+		pe, ok := e.(*ast.ParenExpr)
+		if !ok {
+			return e
 		}
-		okBody := false
-		if len(m.Body.List) == 1 {
-			if r, ok := m.Body.List[0].(*ast.ReturnStmt); ok && len(r.Results) == 1 {
-				if id, ok := r.Results[0].(*ast.Ident); ok && id.Name == "maxQueuedControlFrames" {
-					okBody = true
+		e = pe.X
+	}
+}
+
+// isCounter: a selector path ending in .queuedControlFrames (or a bare ident of that name)
+func c37isCounter(e ast.Expr) bool {
+	switch v := c37unparen(e).(type) {
+	case *ast.SelectorExpr:
+		return v.Sel.Name == c37counter
+	case *ast.Ident:
+		return v.Name == c37counter
+	case *ast.CallExpr: // int(sc.queuedControlFrames)
+		if len(v.Args) == 1 {
+			if id, ok := v.Fun.(*ast.Ident); ok && (id.Name == "int" || id.Name == "int64" || id.Name == "int32") {
+				return c37isCounter(v.Args[0])
+			}
+		}
+	}
+	return false
+}
+
+// isLimit: the accessor call, the constant, a conversion of those, or a local known to hold the limit
+func c37isLimit(e ast.Expr, env map[string]bool) bool {
+	switch v := c37unparen(e).(type) {
+	case *ast.Ident:
+		return v.Name == c37const || env[v.Name]
+	case *ast.CallExpr:
+		switch f := v.Fun.(type) {
+		case *ast.SelectorExpr:
+			if f.Sel.Name == c37const && len(v.Args) == 0 {
+				return true
+			}
+		case *ast.Ident:
+			if f.Name == c37const && len(v.Args) == 0 {
+				return true
+			}
+			if len(v.Args) == 1 && (f.Name == "int" || f.Name == "int64" || f.Name == "int32") {
+				return c37isLimit(v.Args[0], env)
+			}
+		}
+	}
+	return false
+}
+
+// locals of a function body that are assigned the limit (x := limitExpr / x = limitExpr / var x = limitExpr)
+func c37limitLocals(body *ast.BlockStmt) map[string]bool {
+	env := map[string]bool{}
+	for round := 0; round < 3; round++ {
+		ast.Inspect(body, func(n ast.Node) bool {
+			switch s := n.(type) {
+			case *ast.AssignStmt:
+				if len(s.Lhs) == len(s.Rhs) {
+					for i := range s.Lhs {
+						if id, ok := s.Lhs[i].(*ast.Ident); ok && c37isLimit(s.Rhs[i], env) {
+							env[id.Name] = true
+						}
+					}
 				}
-			}
-		}
-		if !okBody {
-			return "", fmt.Errorf("(*Server).maxQueuedControlFrames is no longer `return maxQueuedControlFrames`")
-		}
-		sv := findFunc(f, "serverConn", "serve")
-		if sv == nil || sv.Body == nil {
-			return "", fmt.Errorf("serverConn.serve not found")
-		}
-		isCheck := func(st ast.Stmt) bool {
-			is, ok := st.(*ast.IfStmt)
-			if !ok || is.Init != nil || is.Else != nil {
-				return false
-			}
-			be, ok := is.Cond.(*ast.BinaryExpr)
-			if !ok || be.Op != token.GTR {
-				return false
-			}
-			l, ok1 := be.X.(*ast.SelectorExpr)
-			c, ok2 := be.Y.(*ast.CallExpr)
-			if !ok1 || !ok2 || l.Sel.Name != "queuedControlFrames" {
-				return false
-			}
-			fs, ok := c.Fun.(*ast.SelectorExpr)
-			if !ok || fs.Sel.Name != "maxQueuedControlFrames" || len(is.Body.List) == 0 {
-				return false
-			}
-			_, ret := is.Body.List[len(is.Body.List)-1].(*ast.ReturnStmt)
-			return ret
-		}
-		// the serve loop: the (only) top-level `for { ... select {...} ...; <check> }` of serve().
-		// checkAtLoopTail = the check is the LAST statement of the loop body and directly follows the
-		// select that dispatches the events, i.e. it runs at the end of every iteration whatever the
-		// event and its outcome were.
-		atTail := false
-		loops := 0
-		for _, st := range sv.Body.List {
-			fl, ok := st.(*ast.ForStmt)
-			if !ok || fl.Cond != nil {
-				continue
-			}
-			loops++
-			n := len(fl.Body.List)
-			if n >= 2 && isCheck(fl.Body.List[n-1]) {
-				if _, ok := fl.Body.List[n-2].(*ast.SelectStmt); ok {
-					atTail = true
+			case *ast.ValueSpec:
+				if len(s.Names) == len(s.Values) {
+					for i := range s.Names {
+						if c37isLimit(s.Values[i], env) {
+							env[s.Names[i].Name] = true
+						}
+					}
 				}
-			}
-		}
-		if loops != 1 {
-			return "", fmt.Errorf("serve(): expected exactly one top-level `for {}` loop, found %d", loops)
-		}
-		// how many such checks exist anywhere in the file (informational)
-		total := 0
-		ast.Inspect(f, func(nd ast.Node) bool {
-			if st, ok := nd.(ast.Stmt); ok && isCheck(st) {
-				total++
 			}
 			return true
 		})
-		out := header("C37", "bfe_http2/server.go")
-		out += fmt.Sprintf("/-- `const maxQueuedControlFrames` (server.go); serve() closes when `queuedControlFrames > limit` -/\ndef maxQueuedControlFrames : Nat := %d\n", n)
-		out += fmt.Sprintf("\n/-- the `if sc.queuedControlFrames > sc.srv.maxQueuedControlFrames() { ...; return }` is the last statement of\n    serve()'s `for` body, right after the `select`: it runs at the end of EVERY loop iteration -/\ndef checkAtLoopTail : Bool := %v\n\n/-- number of such checks found anywhere in server.go -/\ndef checksFound : Nat := %d\n", atTail, total)
+	}
+	return env
+}
+
+// does node (within a function whose limit-locals are env) compare the counter with the limit,
+// directly or through same-package calls?
+func (p *c37pkg) comparesLimit(node ast.Node, env map[string]bool, depth int, seen map[*ast.FuncDecl]bool) bool {
+	found := false
+	ast.Inspect(node, func(n ast.Node) bool {
+		if found {
+			return false
+		}
+		switch v := n.(type) {
+		case *ast.FuncLit:
+			return false
+		case *ast.BinaryExpr:
+			switch v.Op {
+			case token.GTR, token.LSS, token.GEQ, token.LEQ:
+				if (c37isCounter(v.X) && c37isLimit(v.Y, env)) || (c37isCounter(v.Y) && c37isLimit(v.X, env)) {
+					found = true
+					return false
+				}
+			}
+		case *ast.CallExpr:
+			if depth <= 0 {
+				return true
+			}
+			name := ""
+			switch f := v.Fun.(type) {
+			case *ast.SelectorExpr:
+				name = f.Sel.Name
+			case *ast.Ident:
+				name = f.Name
+			}
+			for _, fd := range p.funcs[name] {
+				if seen[fd] {
+					continue
+				}
+				seen[fd] = true
+				if p.comparesLimit(fd.Body, c37limitLocals(fd.Body), depth-1, seen) {
+					found = true
+					return false
+				}
+			}
+		}
+		return true
+	})
+	return found
+}
+
+func c37hasReturn(stmts []ast.Stmt) bool {
+	found := false
+	for _, s := range stmts {
+		ast.Inspect(s, func(n ast.Node) bool {
+			switch n.(type) {
+			case *ast.FuncLit:
+				return false
+			case *ast.ReturnStmt:
+				found = true
+			}
+			return !found
+		})
+	}
+	return found
+}
+
+func init() {
+	register("C37", func(repo string) (string, error) {
+		p, err := c37load(repo)
+		if err != nil {
+			return "", err
+		}
+		// the constant
+		var cv ast.Expr
+		for _, f := range p.files {
+			if v := findValue(f, c37const); v != nil {
+				cv = v
+			}
+		}
+		n, ok := intLit(cv)
+		if cv == nil || !ok || n <= 0 {
+			return "", fmt.Errorf("const %s is not a positive integer constant expression", c37const)
+		}
+		// the accessor, if it exists, must return the constant (or an equal literal)
+		for _, fd := range p.funcs[c37const] {
+			if fd.Recv == nil {
+				continue
+			}
+			okBody := false
+			ast.Inspect(fd.Body, func(nd ast.Node) bool {
+				if r, ok := nd.(*ast.ReturnStmt); ok && len(r.Results) == 1 {
+					e := c37unparen(r.Results[0])
+					if id, ok := e.(*ast.Ident); ok && id.Name == c37const {
+						okBody = true
+					} else if v, ok := intLit(e); ok && v == n {
+						okBody = true
+					} else {
+						okBody = false
+						return false
+					}
+				}
+				return true
+			})
+			if !okBody {
+				return "", fmt.Errorf("(*Server).%s no longer returns the constant %s", c37const, c37const)
+			}
+		}
+		// serve(): the event loop and what follows its select
+		var serve *ast.FuncDecl
+		for _, fd := range p.funcs["serve"] {
+			if fd.Recv != nil && len(fd.Recv.List) == 1 {
+				t := fd.Recv.List[0].Type
+				if st, ok := t.(*ast.StarExpr); ok {
+					t = st.X
+				}
+				if id, ok := t.(*ast.Ident); ok && id.Name == "serverConn" {
+					serve = fd
+				}
+			}
+		}
+		if serve == nil {
+			return "", fmt.Errorf("serverConn.serve not found")
+		}
+		env := c37limitLocals(serve.Body)
+		atTail := false
+		loops := 0
+		var walk func(stmts []ast.Stmt)
+		walk = func(stmts []ast.Stmt) {
+			for _, st := range stmts {
+				switch v := st.(type) {
+				case *ast.LabeledStmt:
+					walk([]ast.Stmt{v.Stmt})
+				case *ast.ForStmt:
+					body := v.Body.List
+					last := -1
+					for i, s := range body {
+						if ls, ok := s.(*ast.LabeledStmt); ok {
+							s = ls.Stmt
+						}
+						if _, ok := s.(*ast.SelectStmt); ok {
+							last = i
+						}
+					}
+					if last < 0 {
+						continue
+					}
+					loops++
+					tail := body[last+1:]
+					if len(tail) == 0 {
+						continue
+					}
+					blk := &ast.BlockStmt{List: tail}
+					if p.comparesLimit(blk, env, 4, map[*ast.FuncDecl]bool{serve: true}) && c37hasReturn(tail) {
+						atTail = true
+					}
+				}
+			}
+		}
+		walk(serve.Body.List)
+		if loops == 0 {
+			return "", fmt.Errorf("serve(): no top-level `for` loop with a `select` found")
+		}
+		out := header("C37", "bfe_http2/*.go")
+		out += fmt.Sprintf("/-- `const maxQueuedControlFrames`; serve() closes when `queuedControlFrames > limit` -/\ndef maxQueuedControlFrames : Nat := %d\n", n)
+		out += fmt.Sprintf("\n/-- in serve()'s event loop the statements after the `select` compare `queuedControlFrames` with the limit\n    (directly or through helpers) and can return: the limit check sits in the tail of every iteration -/\ndef checkAtLoopTail : Bool := %v\n", atTail)
 		out += footer("C37")
 		return out, nil
 	})
